@@ -268,7 +268,7 @@ func c12Nontrivial(d *refmodel.Decl) (mixed bool, negAddr bool) {
 // c12RowBuilderRun: declaration -> shovel's config code -> dig.New -> Insert with a
 // capturing connection; compares the emitted rows with the model. Returns the
 // number of expected rows and a violation text.
-func c12RowBuilderRun(d *refmodel.Decl, sblocks []*sim.Block, refSet map[string]bool) (int, string) {
+func c12RowBuilderRun(d *refmodel.Decl, sblocks []*sim.Block, refSet map[string]bool, fromDB bool) (int, string) {
 	raw, _ := json.Marshal(map[string]any{"pg_url": "x", "eth_sources": []any{map[string]any{"name": "src1", "chain_id": 5, "url": "http://x"}}, "integrations": []any{d.JSON(), c12RefDecl().JSON()}})
 	var conf config.Root
 	if err := json.Unmarshal(raw, &conf); err != nil {
@@ -278,6 +278,11 @@ func c12RowBuilderRun(d *refmodel.Decl, sblocks []*sim.Block, refSet map[string]
 		return 0, fmt.Sprintf("configuration in the filter domain refused: %v", err)
 	}
 	ig := conf.Integrations[0]
+	if fromDB && d.FilterAgg == "" {
+		// an integration stored through the dashboard is loaded without ValidateFix:
+		// an omitted filter_agg reaches the row builder empty (documented default: or)
+		ig.FilterAGG = ""
+	}
 	dg, err := dig.New(ig.Name, ig.Event, ig.Block, ig.Table, ig.Notification, ig.FilterAGG)
 	if err != nil {
 		return 0, "dig.New: " + err.Error()
@@ -340,7 +345,7 @@ func TestC12_KnownFindings(t *testing.T) {
 			tx := plainTx(1)[0]
 			tx.Logs = logs
 			chain.Append([]sim.Tx{tx})
-			if _, v := c12RowBuilderRun(d, chain.Blocks[1:], map[string]bool{hex.EncodeToString(addrN(1)): true}); v != "" {
+			if _, v := c12RowBuilderRun(d, chain.Blocks[1:], map[string]bool{hex.EncodeToString(addrN(1)): true}, false); v != "" {
 				return op + " with the first of two addresses in the referenced table: " + v
 			}
 		}
@@ -366,7 +371,8 @@ func TestC12_RowBuilder(t *testing.T) {
 		for _, b := range chain.Blocks[1:] {
 			sblocks = append(sblocks, b)
 		}
-		want, v := c12RowBuilderRun(d, sblocks, refSet)
+		stored := rapid.Bool().Draw(rt, "stored")
+		want, v := c12RowBuilderRun(d, sblocks, refSet, stored)
 		if v != "" {
 			rt.Fatalf("VERIF-VIOLATION property=C12 %s\n %s\n referenced-table=%v", v, c12Describe(d), refSet)
 		}
